@@ -216,6 +216,15 @@ def run(ck, tier):
     ck.guard(r6_unknown_size_read, ck, cx)
     ck.guard(r8_packet_built_in_this_call, ck, cx)
     ck.guard(r9_receive_accumulator_is_local, ck, cx)
+    ck.rule('R10', 'left-over bytes of an earlier exchange are discarded before the next request is written on a serial line (shared with C13 R5)')
+    from .c13 import r5_serial_flush
+    sub = type(ck)(ck.pid, ck.tier)
+    sub.guard(r5_serial_flush, sub, cx)
+    for o in sub.obligations:
+        ck.obligations.append(('R10',) + tuple(o[1:]))
+    for fnd in sub.findings:
+        ck.finding('R10', fnd.construct, fnd.detail, fnd.loc, fnd.message)
+    ck.broken += sub.broken
     from .c13 import r6_short_first_read_is_a_fault
     ck.guard(r6_short_first_read_is_a_fault, ck, cx, 'R7')
     ck.assume('correctness of decoded values is C01/C02; behaviour over all reply contents and histories is not decided')
